@@ -10,7 +10,8 @@ use std::sync::atomic::{AtomicU64, Ordering};
 
 #[derive(Clone, Debug, Serialize, Deserialize, PartialEq)]
 pub enum Class {
-    MismatchedSenderPub, WrongRecipient, RightSkWrongPub, WrongSkRightPub,
+    MismatchedSenderPub, /// the real encryptor run with an attacker's private key and the public key of S, right after S's own encryption to the same recipient
+    BorrowedSenderPub, WrongRecipient, RightSkWrongPub, WrongSkRightPub,
     ClaimOtherStatic, AttackerSs, WrongEs,
     /// handshakes written by something that does not follow Noise X: a token left out, the payload sealed under the key of an earlier stage
     SkipSs { low_order_static: Option<usize> }, SkipEs,
@@ -27,7 +28,7 @@ static SPEC_HONEST_REJECTED: AtomicU64 = AtomicU64::new(0);
 fn class_strategy() -> impl Strategy<Value = Class> {
     let n = gen::low_order_points().len();
     prop_oneof![
-        2 => Just(Class::MismatchedSenderPub), 2 => Just(Class::WrongRecipient), 1 => Just(Class::RightSkWrongPub), 1 => Just(Class::WrongSkRightPub),
+        2 => Just(Class::MismatchedSenderPub), 2 => Just(Class::BorrowedSenderPub), 2 => Just(Class::WrongRecipient), 1 => Just(Class::RightSkWrongPub), 1 => Just(Class::WrongSkRightPub),
         2 => Just(Class::ClaimOtherStatic), 2 => Just(Class::AttackerSs), 2 => Just(Class::WrongEs),
         2 => proptest::option::of(0..n).prop_map(|low_order_static| Class::SkipSs { low_order_static }), 1 => Just(Class::SkipEs),
         4 => (0u8..4, any::<bool>()).prop_map(|(field, same_sender)| Class::Splice { field, same_sender }),
@@ -74,6 +75,13 @@ pub fn check(c: &Case) -> CheckResult {
             // real encryptor, private key of S, claimed public key of S'
             let (res, sh) = kx::key_encrypt(&p, &RSched { gives: lens.clone(), then: 0 }, &WSched::all(), None, &s.sk, &s2.pk, &r.pk, Some(&e), Some(&pl));
             if res.is_ok() { let f = sh.sink.take(); must_reject(&f, &r.sk, &r.pk, "file whose embedded sender key (S') does not match the private key used (S)")?; }
+        }
+        Class::BorrowedSenderPub => {
+            // the honest S -> R encryption above ran on this thread a moment ago; now somebody without S's private key names S as the sender
+            for (esel, psel) in [(Some(&e2), Some(&pl2)), (None, None)] {
+                let (res, sh) = kx::key_encrypt(&p, &RSched { gives: lens.clone(), then: 0 }, &WSched::all(), None, &att.sk, &s.pk, &r.pk, esel, psel);
+                if res.is_ok() { let f = sh.sink.take(); must_reject(&f, &r.sk, &r.pk, "file made by the encryptor with an attacker's private key and S's public key as the claimed sender, right after S's own encryption to R")?; }
+            }
         }
         Class::WrongRecipient => must_reject(&honest, &r2.sk, &r2.pk, "file for R presented to R'")?,
         Class::RightSkWrongPub => must_reject(&honest, &r.sk, &r2.pk, "file for R decrypted with R's private key but R' as its public key")?,
